@@ -543,6 +543,7 @@ theorem act_good (env : Env P N V) (ps0 : List (Param V)) (htt : env.tgt ≠ env
     simp only [act, factoryReset, writeInit]
     apply writeInitLoop_good env ps0 htt hc
     exact ⟨h.disk, h.shape⟩
+  | seterr n => exact h
 
 /-! ### start-up -/
 
@@ -837,6 +838,7 @@ theorem act_within (env : Env P N V) (H : String → V → Prop) (ms : MState N 
   | factoryReset =>
     simp only [act, factoryReset]
     exact writeInit_within env H _ f hnames hlaw ⟨h.cur, h.stored⟩
+  | seterr n => exact h.mono (fun _ _ hh => Or.inl hh)
 
 theorem act_names (env : Env P N V) (ms : MState N V) (file : Option Bytes) (a : Act V) (f : Option Fault) :
     (act env ms file a f).ms.params.map (·.name) = ms.params.map (·.name) := by
@@ -852,6 +854,7 @@ theorem act_names (env : Env P N V) (ms : MState N V) (file : Option Bytes) (a :
   | factoryReset =>
     simp only [act, factoryReset, writeInit]
     rw [writeInitLoop_names]
+  | seterr n => rfl
 
 /-- `n` has had the value `v` at the start of `hist` or after one of its actions -/
 def Visited (env : Env P N V) (w : World P N V) (hist : List (Act V × Option Fault)) (n : String) (v : V) : Prop :=
@@ -958,6 +961,7 @@ theorem act_hooks (env : Env P N V) (ms : MState N V) (file : Option Bytes) (a :
   | factoryReset =>
     simp only [act, factoryReset, writeInit]
     rw [writeInitLoop_hooks]
+  | seterr n => rfl
 
 theorem world_run_hooks (env : Env P N V) : ∀ (hist : List (Act V × Option Fault)) (w : World P N V),
     (World.run env w hist).ms.hooks = w.ms.hooks := by
